@@ -244,31 +244,46 @@ def _convert_call(node: ast.Call) -> libsbml.ASTNode:
     raise NotImplementedError(msg)
 
 
-def _convert_compare(node: ast.Compare) -> libsbml.ASTNode:
-    # FIXME: handle cases such as x < y < z
-
-    left = _convert_node(node.left)
-    right = _convert_node(node.comparators[0])
-
-    match node.ops[0]:
+def _convert_relation(
+    op: ast.cmpop, left: libsbml.ASTNode, right: libsbml.ASTNode
+) -> libsbml.ASTNode:
+    match op:
         case ast.Eq():
-            op = libsbml.AST_RELATIONAL_EQ
+            typ = libsbml.AST_RELATIONAL_EQ
         case ast.NotEq():
-            op = libsbml.AST_RELATIONAL_NEQ
+            typ = libsbml.AST_RELATIONAL_NEQ
         case ast.Lt():
-            op = libsbml.AST_RELATIONAL_LT
+            typ = libsbml.AST_RELATIONAL_LT
         case ast.LtE():
-            op = libsbml.AST_RELATIONAL_LEQ
+            typ = libsbml.AST_RELATIONAL_LEQ
         case ast.Gt():
-            op = libsbml.AST_RELATIONAL_GT
+            typ = libsbml.AST_RELATIONAL_GT
         case ast.GtE():
-            op = libsbml.AST_RELATIONAL_GEQ
+            typ = libsbml.AST_RELATIONAL_GEQ
         case _:
-            raise NotImplementedError(type(node.ops[0]))
+            raise NotImplementedError(type(op))
 
-    sbml_node = libsbml.ASTNode(op)
+    sbml_node = libsbml.ASTNode(typ)
     sbml_node.addChild(left)
     sbml_node.addChild(right)
+    return sbml_node
+
+
+def _convert_compare(node: ast.Compare) -> libsbml.ASTNode:
+    # a < b < c is (a < b) and (b < c): every link has to be exported
+    links = []
+    left = node.left
+    for op, right in zip(node.ops, node.comparators, strict=True):
+        links.append(
+            _convert_relation(op, _convert_node(left), _convert_node(right))
+        )
+        left = right
+    if len(links) == 1:
+        return links[0]
+
+    sbml_node = libsbml.ASTNode(libsbml.AST_LOGICAL_AND)
+    for link in links:
+        sbml_node.addChild(link)
     return sbml_node
 
 
